@@ -21,6 +21,8 @@ func checkC04(w *World, r *Report) {
 	c04ErrArgument(w, r, pa)
 	c04Extractors(w, r)
 	c04FallbackFlag(w, r)
+	// "cannot be parsed" means "no credentials": the parser must not be narrower than the library
+	c05Tables(w, r)
 }
 
 // globalUses lists instructions (in module, non-mock functions) that load the package-level variable g.
